@@ -1,6 +1,7 @@
 import FcpptProofs.C11.Iter
 import FcpptProofs.C11.Members
 import FcpptProofs.C11.Hold
+import FcpptProofs.C11.Reentrant
 set_option linter.unusedSimpArgs false
 set_option linter.unusedVariables false
 /-!
@@ -748,6 +749,113 @@ example : holdValidRun Hold.State.empty.own []
     [.sig (.newSig 0 (some 1)), .connect 0 0 0 5 (some 1), .connect 1 1 0 6 (some 1), .sig (.newSig 1 none),
      .connect 2 2 1 7 none, .transfer 0 0 16, .transfer 1 0 16, .transfer 2 0 16, .swap 16 17, .release 17 1,
      .sig (.moveCtor 2 0), .connect 3 3 2 8 (some 2), .clear 0, .transfer 3 0 0, .clear 17, .sig (.delSig 2), .release 0 0] = true := by
+  decide
+
+
+/-! ## Calls whose callbacks change the set of connections -/
+
+/-- **A call whose callbacks let go of connections or connect new callbacks never touches a destroyed connection**, as long
+as no callback lets go of the connection it is itself running from (`loopSafe`, a condition on the caller).  For a signal
+`s` of an owned program state the call either needs more fuel (callbacks that keep connecting new callbacks), or hits the
+moved-from combiner of a non-void signal before anything ran, or returns — and then the program state is again owned and
+represented, for the rings obtained from `R` by the effects that ran (`res.trace`), and `s` is still alive. -/
+theorem rcall_never_touches_dead (act : Nat → Hold.Act) (cb : Nat → Nat → Nat) (comb : Nat → Nat → Nat → Nat) (isVoid : Bool)
+    {st : Hold.State} {R : Rings} (h : Owned st R) {s : Nat} (hs : Node.head s ∈ nodes R) (fuel init arg : Nat)
+    (hsafe : loopSafe act (.head s) fuel st (st.sig.store.next (.head s)) = true) :
+    Hold.rcall act cb comb isVoid st s fuel init arg = .error .fuel ∨
+    (Hold.rcall act cb comb isVoid st s fuel init arg = .error .emptyDeref ∧ isVoid = false ∧ st.sig.combiner s = none) ∨
+    ∃ res, Hold.rcall act cb comb isVoid st s fuel init arg = .ok res ∧ Owned res.st (Spec.run R res.trace) ∧
+      Node.head s ∈ nodes (Spec.run R res.trace) := by
+  have hl := h.srep.rep.live_of_mem hs
+  obtain ⟨r, hr, hm⟩ := mem_nodes.1 hs
+  have hsr : SameRing R (.head s) (st.sig.store.next (.head s)) := ⟨r, hr, hm, (Ring_next (h.srep.rep.ring _ hr) hm).1⟩
+  simp only [Hold.rcall, rdNext, hl, ite_true, bind, Except.bind]
+  by_cases e : st.sig.store.next (.head s) = .head s
+  · simp only [e, ite_true]
+    exact Or.inr (Or.inr ⟨_, rfl, h, hs⟩)
+  · simp only [e, ite_false]
+    cases isVoid with
+    | true =>
+      simp only [ite_true]
+      rcases callLoop_safe act cb none arg s fuel [] init [] h hsr hsafe with a | ⟨res, tr, a, b, c, d⟩
+      · exact Or.inl a
+      · simp only [List.nil_append] at b
+        exact Or.inr (Or.inr ⟨res, a, by rw [b]; exact c, by rw [b]; exact d⟩)
+    | false =>
+      simp only [Bool.false_eq_true, ite_false]
+      cases hc : st.sig.combiner s with
+      | none => exact Or.inr (Or.inl ⟨rfl, by simp⟩)
+      | some c0 =>
+        rcases callLoop_safe act cb (some (comb c0)) arg s fuel [] init [] h hsr hsafe with a | ⟨res, tr, a, b, c, d⟩
+        · exact Or.inl a
+        · simp only [List.nil_append] at b
+          exact Or.inr (Or.inr ⟨res, a, by rw [b]; exact c, by rw [b]; exact d⟩)
+
+/-- **Without effects the loop is the plain call**: the callbacks of the live connections in connection order, the
+accumulator folded from the left (non-void) or left alone (void), the program state untouched. -/
+theorem rcall_without_effects (cb : Nat → Nat → Nat) (comb : Nat → Nat → Nat → Nat) {st : Hold.State} {R : Rings}
+    (h : SRep st.sig R) {s : Nat} {l : List Node} (hm : members R s = some l) {fuel : Nat} (hf : l.length ≤ fuel)
+    (init arg : Nat) :
+    ∃ fs, Sig.invoked st.sig s fuel = .ok fs ∧
+      Hold.rcall (fun _ => .none) cb comb true st s fuel init arg = .ok ⟨st, fs, init, []⟩ ∧
+      ∀ c, st.sig.combiner s = some c →
+        Hold.rcall (fun _ => .none) cb comb false st s fuel init arg =
+          .ok ⟨st, fs, fs.foldl (fun acc f => comb c acc (cb f arg)) init, []⟩ := by
+  obtain ⟨xs, cs, h1, _, h3, h4⟩ := call_invokes_live_once_in_order h hm hf
+  have hr := members_mem hm
+  have hring : Path st.sig.store (.head s) l (.head s) := h.rep.ring _ hr
+  have nd := h.rep.wf.nodup _ hr
+  have hh : st.sig.store.live (.head s) = true := h.rep.live_of_mem (mem_nodes.2 ⟨_, hr, by simp⟩)
+  subst h1
+  have key := fun cmb => callLoop_path_noeffect cb cmb arg (st := st) (h := .head s) (cs := cs) (fuel := fuel) [] init [] hring
+    (fun x hx => h.rep.live_of_mem (mem_nodes.2 ⟨_, hr, by simp [hx]⟩)) h3 (List.nodup_cons.1 nd).1 (by simpa using hf)
+  refine ⟨cs.map (·.callback), h4, ?_, fun c hc => ?_⟩
+  · simp only [Hold.rcall, rdNext, hh, ite_true, bind, Except.bind]
+    split
+    · rename_i e
+      -- no connection at all
+      cases xs with
+      | nil => cases cs with
+        | nil => rfl
+        | cons c cs => simp at h3
+      | cons x xs =>
+        have : st.sig.store.next (.head s) = .elem x := hring.1.1
+        rw [this] at e; cases e
+    · simp only [ite_true, key none, List.nil_append]
+      have : ∀ (fs : List Nat) (a : Nat), fs.foldl (fun ac f => accStep none ac (cb f arg)) a = a := by
+        intro fs; induction fs with
+        | nil => intro a; rfl
+        | cons f t ih => intro a; simpa [accStep] using ih a
+      rw [this]
+  · simp only [Hold.rcall, rdNext, hh, ite_true, bind, Except.bind]
+    split
+    · rename_i e
+      cases xs with
+      | nil => cases cs with
+        | nil => rfl
+        | cons c cs => simp at h3
+      | cons x xs =>
+        have : st.sig.store.next (.head s) = .elem x := hring.1.1
+        rw [this] at e; cases e
+    · simp only [Bool.false_eq_true, ite_false, hc, key (some (comb c)), List.nil_append]
+      rfl
+
+/-- the three things that can happen, on a signal with connections 0, 1, 2 (callbacks 10, 11, 12) held by holders 0, 1, 2:
+a callback lets go of a later connection — it is not invoked; a callback connects a new callback — it is invoked in the same
+call; a callback lets go of its own connection — `++it` reads the destroyed hook (the model's heap-use-after-free), which
+is why `loopSafe` excludes it. -/
+def reentrantDemo : Hold.State :=
+  match holdRun Hold.State.empty [.sig (.newSig 0 none), .connect 0 0 0 10 none, .connect 1 1 0 11 none, .connect 2 2 0 12 none] with
+  | .ok st => st
+  | .error _ => Hold.State.empty
+
+example : (Hold.rcall (fun f => if f = 10 then .reset 1 else .none) (fun _ _ => 0) (fun _ _ _ => 0) true reentrantDemo 0 8 0 0).toOption.map (·.log)
+    = some [10, 12] := by decide
+example : (Hold.rcall (fun f => if f = 11 then .connect 3 0 13 none else .none) (fun _ _ => 0) (fun _ _ _ => 0) true reentrantDemo 0 8 0 0).toOption.map (·.log)
+    = some [10, 11, 12, 13] := by decide
+example : faults (Hold.rcall (fun f => if f = 11 then .reset 1 else .none) (fun _ _ => 0) (fun _ _ _ => 0) true reentrantDemo 0 8 0 0) .oob = true ∧
+    loopSafe (fun f => if f = 11 then .reset 1 else .none) (.head 0) 8 reentrantDemo (reentrantDemo.sig.store.next (.head 0)) = false ∧
+    loopSafe (fun f => if f = 10 then .reset 1 else .none) (.head 0) 8 reentrantDemo (reentrantDemo.sig.store.next (.head 0)) = true := by
   decide
 
 /-- non-vacuity: a signal history with connect, death, move, move-assignment -/
